@@ -20,7 +20,8 @@ LEVEL_TEXT = ("Each factory is called over a grid of parameters (means of both s
               "variance used as standard deviation deviates by 0.16-0.21 in sup-norm for var in {0.16, 4}, the band is 0.012.")
 LEVEL_NOTE = "Statistical: per-test false-alarm bound 1e-12 (DKW) and a three-fold escalation for z-scores; deviations below the band are invisible."
 RULE = ("cases: (factory, parameters, seed).  distinct = distinct triple; non-trivial = non-default parameters (var != 1, "
-        "mean != 0, (lo,hi) != (0,1), scale != 1) for the random factories")
+        "mean != 0, (lo,hi) != (0,1), scale != 1) for the random factories"
+        ' Also: falsy and integer parameters, narrow numpy scalars as parameters, intervals of minute width, deep copies of the callables, the three factories called with equal parameters one after another, zero() after ANM histories with shift interventions, lag-2/5 and half-sample statistics.')
 ASSUMPTIONS = ["DKW inequality for i.i.d. samples of a continuous law; z-score escalation as in DESIGN.md section 2 rule 3"]
 EXHAUSTIVE = {"quick": False, "thorough": False}
 SOFT_LIMIT = {"quick": 240, "thorough": 1500}
